@@ -99,4 +99,8 @@ def handleDom (st : St) (op : String) (j : Json) : Option (D (St × Json)) :=
       | .ok (some n, _) => return (st, Json.mkObj [("obs", obsJ), ("doc", eNode n)])
       | .ok (none, c) => return (st, Json.mkObj [("obs", obsJ), ("frag", eFrag c),
           ("open", Json.arr #[jn (Slice.maxOpen S c).openStart, jn (Slice.maxOpen S c).openEnd])])
+  -- the decidable schema hypotheses of the C19 placement theorems
+  | "domHyps" => some do
+    let S ← getSchema st j
+    return (st, ok (Json.mkObj [("det", Json.bool (detB S)), ("textStable", Json.bool (textStableB S))]))
   | _ => none
